@@ -21,7 +21,19 @@ fn run_op(op: &str) -> String {
       let h = layer.hash(1.0, 0.5);
       let (cl, cb) = layer.center(h);
       let nb: Vec<u64> = layer.neighbours(h, true).sorted_values_vec();
-      format!("addr={:x} depth={} n_hash={} hash={} centre={:x},{:x} nb={:?}", addr, layer.depth(), layer.n_hash(), h, cl.to_bits(), cb.to_bits(), nb)
+      // more of the layer's fields: a polar-cap position, the corner cells of the sphere (seam tables,
+      // nside - 1, masks), the ring index of a cell
+      let join = |v: Vec<u64>| v.iter().map(|x| x.to_string()).collect::<Vec<_>>().join(",");
+      let hp = layer.hash(0.3, 1.3);
+      let last = layer.n_hash() - 1;
+      let nb0 = join(layer.neighbours(0, false).sorted_values_vec());
+      let nbl = join(layer.neighbours(last, false).sorted_values_vec());
+      let ring = layer.to_ring(h);
+      let back = layer.from_ring(ring);
+      format!(
+        "addr={:x} depth={} n_hash={} hash={} centre={:x},{:x} nb={:?} polar={} nb0={} nbl={} ring={} back={}",
+        addr, layer.depth(), layer.n_hash(), h, cl.to_bits(), cb.to_bits(), nb, hp, nb0, nbl, ring, back
+      )
     }
     "C" => {
       let a = cdshealpix::largest_center_to_vertex_distance(d, 1.0, 0.9);
